@@ -808,6 +808,7 @@ func (c *Chunker) splitSectionByParagraphs(section *Section, chunkIndex *int, do
 				prevChunk.Metadata.WordCount = countWords(prevChunk.Text)
 				prevChunk.Metadata.EstimatedTokens = len(prevChunk.Text) / 4
 				prevChunk.TextWithContext = prevChunk.generateContextualText()
+				extendPageRange(prevChunk, currentElements)
 				currentText.Reset()
 				currentElements = nil
 				elementTypes = nil
@@ -833,6 +834,7 @@ func (c *Chunker) splitSectionByParagraphs(section *Section, chunkIndex *int, do
 
 		chunk := c.createChunk(text, section, *chunkIndex, docTitle, elementTypes, hasTable, hasList, hasImage, bbox)
 		chunk.Metadata.Level = ChunkLevelParagraph
+		setPageRange(chunk, currentElements)
 		chunks = append(chunks, chunk)
 		*chunkIndex++
 
@@ -921,6 +923,7 @@ func (c *Chunker) splitSectionByParagraphs(section *Section, chunkIndex *int, do
 				}
 				chunk := c.createChunk(atomicStr, section, *chunkIndex, docTitle, atomicTypes, atomicHasTable, atomicHasList, atomicHasImage, bbox)
 				chunk.Metadata.Level = ChunkLevelParagraph
+				setPageRange(chunk, atomicElements)
 				chunks = append(chunks, chunk)
 				*chunkIndex++
 			}
@@ -1056,6 +1059,7 @@ func (c *Chunker) splitBySentences(text string, section *Section, chunkIndex *in
 			chunk := c.createChunk(chunkText, section, *chunkIndex, docTitle,
 				[]string{elem.Type.String()}, false, false, false, &elem.BBox)
 			chunk.Metadata.Level = ChunkLevelSentence
+			setPageRange(chunk, []ContentElement{elem})
 			chunks = append(chunks, chunk)
 			*chunkIndex++
 			currentText.Reset()
@@ -1073,11 +1077,48 @@ func (c *Chunker) splitBySentences(text string, section *Section, chunkIndex *in
 		chunk := c.createChunk(chunkText, section, *chunkIndex, docTitle,
 			[]string{elem.Type.String()}, false, false, false, &elem.BBox)
 		chunk.Metadata.Level = ChunkLevelSentence
+		setPageRange(chunk, []ContentElement{elem})
 		chunks = append(chunks, chunk)
 		*chunkIndex++
 	}
 
 	return chunks
+}
+
+// setPageRange narrows a chunk's page range from that of its whole section to
+// the pages of the elements it actually contains.
+func setPageRange(chunk *Chunk, elems []ContentElement) {
+	first, last := 0, 0
+	for _, e := range elems {
+		if e.Page <= 0 {
+			continue
+		}
+		if first == 0 || e.Page < first {
+			first = e.Page
+		}
+		if e.Page > last {
+			last = e.Page
+		}
+	}
+	if first > 0 {
+		chunk.Metadata.PageStart = first
+		chunk.Metadata.PageEnd = last
+	}
+}
+
+// extendPageRange widens a chunk's page range to include the given elements.
+func extendPageRange(chunk *Chunk, elems []ContentElement) {
+	for _, e := range elems {
+		if e.Page <= 0 {
+			continue
+		}
+		if e.Page < chunk.Metadata.PageStart {
+			chunk.Metadata.PageStart = e.Page
+		}
+		if e.Page > chunk.Metadata.PageEnd {
+			chunk.Metadata.PageEnd = e.Page
+		}
+	}
 }
 
 // createChunk creates a new Chunk with the given parameters
